@@ -195,6 +195,48 @@ func c08(c *Ctx) {
 		for k := range want {
 			r.Check("percentile:"+k+":emitted", seen[k], ft.Pos(), "sub-metric "+k+" has an emission site")
 		}
+		// each timer's percentiles live in that timer's own slice: where the closure assigns timer.Percentiles
+		// itself, the value is nil, a slice made inside the closure, or this timer's own slice cut down - never
+		// a buffer captured from outside (every timer flushed together would then report the last one's values)
+		for _, st := range fieldStores(ft, "Timer", "Percentiles") {
+			bad := ""
+			seen := map[ssa.Value]bool{}
+			var leaf func(v ssa.Value, d int)
+			leaf = func(v ssa.Value, d int) {
+				if seen[v] || d > 8 {
+					return
+				}
+				seen[v] = true
+				switch x := v.(type) {
+				case *ssa.Const:
+					if x.Value != nil {
+						bad = exprString(x, 0)
+					}
+				case *ssa.MakeSlice:
+				case *ssa.Phi:
+					for _, e := range x.Edges {
+						leaf(e, d+1)
+					}
+				case *ssa.Slice:
+					leaf(x.X, d+1)
+				case *ssa.Call:
+					if isCall(x, "builtin append") {
+						leaf(x.Call.Args[0], d+1)
+					} else {
+						bad = "the result of " + calleeName(x)
+					}
+				case *ssa.UnOp:
+					if t, f, _, ok := fieldRef(x.X); ok && t == "Timer" && f == "Percentiles" {
+						return // this timer's own slice
+					}
+					bad = "a value loaded from " + pathOf(x.X) + " (shared by every timer the closure is called for)"
+				default:
+					bad = exprString(v, 0)
+				}
+			}
+			leaf(st.Val, 0)
+			r.Check("percentile:own-slice", bad == "", st.Pos(), "timer.Percentiles is assigned nil, a fresh slice or this timer's own slice; "+bad)
+		}
 		// names
 		na := w.Func(P, "NewMetricAggregator")
 		if na == nil {
